@@ -680,8 +680,8 @@ class Delivered:
                     if hi != hi: hi = INF
                     nl, nu = (lo / cj, hi / cj) if cj > 0 else (hi / cj, lo / cj)
                     if self.vars[j][2] == 1:
-                        if nl > -INF: nl = math.ceil(nl - 1e-7)
-                        if nu < INF: nu = math.floor(nu + 1e-7)
+                        if -INF < nl < INF: nl = math.ceil(nl - 1e-7)
+                        if -INF < nu < INF: nu = math.floor(nu + 1e-7)
                     if nl > L[j] + 1e-9: L[j] = nl; changed = True
                     if nu < U[j] - 1e-9: U[j] = nu; changed = True
             if not changed: break
